@@ -66,6 +66,7 @@ type c03Shape struct {
 	Multi   bool `json:",omitempty"` // the route is registered through Routes with three method names given as separate leading strings
 	Wrap    bool `json:",omitempty"` // a HandlerWrapper (the identity) is configured before anything is registered
 	Head    bool `json:",omitempty"` // AutoHead is on and the request is a HEAD request (served by the chain registered alongside the GET route)
+	Prefix  bool `json:",omitempty"` // a sibling route is registered with a prefix of the probed route's handler list (one backing array, the last handler left out) and is served once before every probe
 	Refused bool `json:",omitempty"` // around every accepted Use call and the route registration, a Use / Get / Action call that is refused for a non-callable argument (the panic is recovered): nothing of a refused call is in any chain
 }
 
@@ -78,7 +79,7 @@ func (s c03Shape) n() int {
 }
 
 func (s c03Shape) String() string {
-	return fmt.Sprintf("mw=%d group=%d route=%d action=%v flat=%v late=%v swap=%v autohead=%v informational-statuses=%v handler-types=%d handler-wrapper=%v routes-with-three-method-strings=%v handler-less-nested-groups=%v extra-stand-ins=%d refused-registrations-around=%v", s.M, s.G, s.R, s.Action, s.Flat, s.Late, s.Swap, s.Head, s.Info, s.Sig, s.Wrap, s.Multi, s.Hollow, s.SwapN, s.Refused)
+	return fmt.Sprintf("mw=%d group=%d route=%d action=%v flat=%v late=%v swap=%v autohead=%v informational-statuses=%v handler-types=%d handler-wrapper=%v routes-with-three-method-strings=%v handler-less-nested-groups=%v extra-stand-ins=%d refused-registrations-around=%v sibling-route-on-a-prefix-of-the-handler-list=%v", s.M, s.G, s.R, s.Action, s.Flat, s.Late, s.Swap, s.Head, s.Info, s.Sig, s.Wrap, s.Multi, s.Hollow, s.SwapN, s.Refused, s.Prefix)
 }
 
 type c03Ev struct {
@@ -100,6 +101,8 @@ type c03World struct {
 	prog   []c03Beh
 	trace  []c03Ev
 	cancel gocontext.CancelFunc
+	// short: the path of the sibling route registered on a prefix of the handler list (served before every probe)
+	short string
 }
 
 func (w *c03World) body(i int, c flamego.Context) (ret string) {
@@ -252,6 +255,12 @@ func c03Build(s c03Shape, strMask int) *c03World {
 	// own: it must never show up in the probed route's chain (id 90 is no position of the chain)
 	sibling := func() {
 		w.f.Get("/sibling", func(c flamego.Context) { w.trace = append(w.trace, c03Ev{K: 'E', I: 90}) })
+		if s.Prefix && len(rh) >= 2 {
+			// the application's own slice, one element shorter: whatever the framework appends to ITS copy of
+			// this list while serving /short must not land in the probed route's chain
+			w.f.Get("/short", rh[:len(rh)-1]...)
+			w.short = "/short" // completed with the scope's prefix once the probed path is known
+		}
 	}
 	switch {
 	case s.G == 0:
@@ -304,6 +313,9 @@ func c03Build(s c03Shape, strMask int) *c03World {
 		if lateMW != nil {
 			w.f.Use(lateMW)
 		}
+	}
+	if w.short != "" {
+		w.short = strings.TrimSuffix(w.path, "/x") + "/short"
 	}
 	refused("action")
 	if s.Action {
@@ -498,6 +510,14 @@ func c03TraceString(tr []c03Ev) string {
 }
 
 func (w *c03World) run(prog []c03Beh) (status int, body string, escaped interface{}) {
+	if w.short != "" {
+		// the sibling route first, every handler of it doing nothing (the chain runs through to the action)
+		w.prog = make([]c03Beh, len(prog))
+		func() {
+			defer func() { _ = recover() }()
+			w.f.ServeHTTP(&c01Spy{hdr: http.Header{}}, newReq(w.method, w.short))
+		}()
+	}
 	w.prog = prog
 	w.trace = w.trace[:0]
 	ctx, cancel := gocontext.WithCancel(gocontext.Background())
@@ -575,6 +595,9 @@ func c03Shapes(maxN int, thorough bool) []c03Shape {
 						}
 						out = append(out, c03Shape{M: m, G: g, R: r, Action: act, Head: true})
 						out = append(out, c03Shape{M: m, G: g, R: r, Action: act, Refused: true})
+						if r >= 2 {
+							out = append(out, c03Shape{M: m, G: g, R: r, Action: act, Prefix: true})
+						}
 						if g >= 2 {
 							out = append(out, c03Shape{M: m, G: g, R: r, Action: act, Flat: true, Head: true})
 						}
@@ -587,7 +610,7 @@ func c03Shapes(maxN int, thorough bool) []c03Shape {
 }
 
 func c03Run(r *core.Run) {
-	r.Rule = "engine E: every handler program = stack shape (app middleware / nested group handlers / route handlers / optional action; handler types func(Context), func(Context) string, func(ResponseWriter, *Request), http.HandlerFunc, func(Context, *Request)) x one behaviour per position (action string over {Next, write, cancel, install a derived context, Next guarded by the handler's own recover} + terminal {return nothing, return \"\", return a string, panic}); each program is one request on a real Flame; stack variants: installed late, swapped by Handlers(), flat groups, AutoHead, informational statuses, a HandlerWrapper, Routes with several method strings, handler-less nested groups, refused Use/Get/Action calls (non-callable argument, recovered) around the accepted ones; the recorded event trace must be accepted by the trace automaton (chain order, at most once, none skipped, onion nesting, automatic advance iff nothing written and not cancelled, Next() completeness) and the response must equal what the trace implies; non-trivial = program with at least one Next() and at least one write/cancel/panic/returned string"
+	r.Rule = "engine E: every handler program = stack shape (app middleware / nested group handlers / route handlers / optional action; handler types func(Context), func(Context) string, func(ResponseWriter, *Request), http.HandlerFunc, func(Context, *Request)) x one behaviour per position (action string over {Next, write, cancel, install a derived context, Next guarded by the handler's own recover} + terminal {return nothing, return \"\", return a string, panic}); each program is one request on a real Flame; stack variants: installed late, swapped by Handlers(), flat groups, AutoHead, informational statuses, a HandlerWrapper, Routes with several method strings, handler-less nested groups, refused Use/Get/Action calls (non-callable argument, recovered) around the accepted ones, a sibling route registered on a prefix of the probed route's handler slice and served before every probe; the recorded event trace must be accepted by the trace automaton (chain order, at most once, none skipped, onion nesting, automatic advance iff nothing written and not cancelled, Next() completeness) and the response must equal what the trace implies; non-trivial = program with at least one Next() and at least one write/cancel/panic/returned string"
 	r.Assumptions = []string{"an explicit Next() after a write or after a cancel may start the next handler or not (the statement leaves it open); everything else is exact", "no Recovery in the stack (C15 covers it)"}
 	type plan struct {
 		minN, maxN int
@@ -638,7 +661,7 @@ func c03Run(r *core.Run) {
 		}
 		var jobs []job
 		for _, s := range shapes {
-			base := !(s.Flat || s.Late || s.Swap || s.Head || s.Info || s.Sig > 0 || s.Wrap || s.Multi || s.Hollow || s.Refused)
+			base := !(s.Flat || s.Late || s.Swap || s.Head || s.Info || s.Sig > 0 || s.Wrap || s.Multi || s.Hollow || s.Refused || s.Prefix)
 			if s.n() < pl.minN || (pl.which == 1 && !base) || (pl.which == 2 && base) {
 				continue
 			}
